@@ -322,10 +322,8 @@ pub extern "C" fn tsrun_value_dup(
     };
 
     // Clone the value and create a new guard if needed
-    Box::into_raw(TsRunValue::from_js_value(
-        &mut ctx.interp,
-        val.value().clone(),
-    ))
+    let value = ctx.view(val);
+    Box::into_raw(TsRunValue::from_js_value(&mut ctx.interp, value))
 }
 
 // ============================================================================
@@ -353,6 +351,9 @@ pub extern "C" fn tsrun_get(
         Some(v) => v,
         None => return TsRunValueResult::err(ctx, "NULL object".to_string()),
     };
+    if !ctx.owns(obj_val) {
+        return TsRunValueResult::err(ctx, "Value belongs to another context".to_string());
+    }
 
     let key_str = match unsafe { c_str_to_str(key) } {
         Some(s) => s,
@@ -363,7 +364,8 @@ pub extern "C" fn tsrun_get(
         return TsRunValueResult::err(ctx, "Value is not an object".to_string());
     };
 
-    let prop_key = PropertyKey::String(JsString::from(key_str));
+    // "0", "17" are array indices: use the canonical key, as script code does
+    let prop_key = PropertyKey::from_value(&JsValue::String(JsString::from(key_str)));
     let value = obj_ref
         .borrow()
         .get_property(&prop_key)
@@ -394,6 +396,9 @@ pub extern "C" fn tsrun_set(
         Some(v) => v,
         None => return TsRunResult::err(ctx, "NULL object".to_string()),
     };
+    if !ctx.owns(obj_val) {
+        return TsRunResult::err(ctx, "Value belongs to another context".to_string());
+    }
 
     let key_str = match unsafe { c_str_to_str(key) } {
         Some(s) => s,
@@ -404,12 +409,16 @@ pub extern "C" fn tsrun_set(
         Some(v) => v,
         None => return TsRunResult::err(ctx, "NULL value".to_string()),
     };
+    if !ctx.owns(val_ref) {
+        return TsRunResult::err(ctx, "Value belongs to another context".to_string());
+    }
 
     let JsValue::Object(obj_ref) = obj_val.value() else {
         return TsRunResult::err(ctx, "Value is not an object".to_string());
     };
 
-    let prop_key = PropertyKey::String(JsString::from(key_str));
+    // "0", "17" are array indices: use the canonical key, as script code does
+    let prop_key = PropertyKey::from_value(&JsValue::String(JsString::from(key_str)));
     obj_ref
         .borrow_mut()
         .set_property(prop_key, val_ref.value().clone());
@@ -439,11 +448,15 @@ pub extern "C" fn tsrun_has(
         None => return false,
     };
 
+    if !_ctx.owns(obj_val) {
+        return false;
+    }
     let JsValue::Object(obj_ref) = obj_val.value() else {
         return false;
     };
 
-    let prop_key = PropertyKey::String(JsString::from(key_str));
+    // "0", "17" are array indices: use the canonical key, as script code does
+    let prop_key = PropertyKey::from_value(&JsValue::String(JsString::from(key_str)));
     obj_ref.borrow().get_property(&prop_key).is_some()
 }
 
@@ -468,6 +481,9 @@ pub extern "C" fn tsrun_delete(
         Some(v) => v,
         None => return TsRunResult::err(ctx, "NULL object".to_string()),
     };
+    if !ctx.owns(obj_val) {
+        return TsRunResult::err(ctx, "Value belongs to another context".to_string());
+    }
 
     let key_str = match unsafe { c_str_to_str(key) } {
         Some(s) => s,
@@ -478,7 +494,8 @@ pub extern "C" fn tsrun_delete(
         return TsRunResult::err(ctx, "Value is not an object".to_string());
     };
 
-    let prop_key = PropertyKey::String(JsString::from(key_str));
+    // "0", "17" are array indices: use the canonical key, as script code does
+    let prop_key = PropertyKey::from_value(&JsValue::String(JsString::from(key_str)));
     obj_ref.borrow_mut().properties.remove(&prop_key);
 
     TsRunResult::success()
@@ -513,12 +530,19 @@ pub extern "C" fn tsrun_keys(
         }
     };
 
+    let owned = _ctx.owns(obj_val);
     let JsValue::Object(obj_ref) = obj_val.value() else {
         if !count_out.is_null() {
             unsafe { *count_out = 0 };
         }
         return ptr::null_mut();
     };
+    if !owned {
+        if !count_out.is_null() {
+            unsafe { *count_out = 0 };
+        }
+        return ptr::null_mut();
+    }
 
     let borrowed = obj_ref.borrow();
     let keys: Vec<*mut c_char> = borrowed
@@ -587,6 +611,9 @@ pub extern "C" fn tsrun_array_get(
         Some(v) => v,
         None => return TsRunValueResult::err(ctx, "NULL array".to_string()),
     };
+    if !ctx.owns(arr_val) {
+        return TsRunValueResult::err(ctx, "Value belongs to another context".to_string());
+    }
 
     let JsValue::Object(obj_ref) = arr_val.value() else {
         return TsRunValueResult::err(ctx, "Value is not an object".to_string());
@@ -625,11 +652,17 @@ pub extern "C" fn tsrun_array_set(
         Some(v) => v,
         None => return TsRunResult::err(ctx, "NULL array".to_string()),
     };
+    if !ctx.owns(arr_val) {
+        return TsRunResult::err(ctx, "Value belongs to another context".to_string());
+    }
 
     let val_ref = match unsafe { val.as_ref() } {
         Some(v) => v,
         None => return TsRunResult::err(ctx, "NULL value".to_string()),
     };
+    if !ctx.owns(val_ref) {
+        return TsRunResult::err(ctx, "Value belongs to another context".to_string());
+    }
 
     let JsValue::Object(obj_ref) = arr_val.value() else {
         return TsRunResult::err(ctx, "Value is not an object".to_string());
@@ -641,6 +674,9 @@ pub extern "C" fn tsrun_array_set(
     };
 
     // Extend array if needed
+    if index >= crate::value::MAX_ARRAY_LENGTH {
+        return TsRunResult::err(ctx, "Invalid array length".to_string());
+    }
     while elements.len() <= index {
         elements.push(JsValue::Undefined);
     }
@@ -681,11 +717,17 @@ pub extern "C" fn tsrun_array_push(
         Some(v) => v,
         None => return TsRunResult::err(ctx, "NULL array".to_string()),
     };
+    if !ctx.owns(arr_val) {
+        return TsRunResult::err(ctx, "Value belongs to another context".to_string());
+    }
 
     let val_ref = match unsafe { val.as_ref() } {
         Some(v) => v,
         None => return TsRunResult::err(ctx, "NULL value".to_string()),
     };
+    if !ctx.owns(val_ref) {
+        return TsRunResult::err(ctx, "Value belongs to another context".to_string());
+    }
 
     let JsValue::Object(obj_ref) = arr_val.value() else {
         return TsRunResult::err(ctx, "Value is not an object".to_string());
@@ -745,9 +787,7 @@ pub extern "C" fn tsrun_json_parse(
             if let JsValue::Object(ref obj) = value {
                 guard.guard(obj.cheap_clone());
             }
-            TsRunValueResult::ok(Box::new(TsRunValue {
-                inner: crate::RuntimeValue::with_guard(value, guard),
-            }))
+            TsRunValueResult::ok(TsRunValue::from_runtime_value(crate::RuntimeValue::with_guard(value, guard)))
         }
         Err(e) => TsRunValueResult::err(ctx, e.to_string()),
     }
@@ -771,7 +811,7 @@ pub extern "C" fn tsrun_json_stringify(
         None => return ptr::null_mut(),
     };
 
-    match crate::js_value_to_json(val_ref.value()) {
+    match crate::js_value_to_json(&ctx.view(val_ref)) {
         Ok(json_value) => match serde_json::to_string(&json_value) {
             Ok(s) => str_to_c_string(&s),
             Err(_) => {
@@ -805,9 +845,7 @@ pub extern "C" fn tsrun_object_new(ctx: *mut TsRunContext) -> TsRunValueResult {
 
     let guard = ctx.interp.heap.create_guard();
     let obj = ctx.interp.create_object(&guard);
-    TsRunValueResult::ok(Box::new(TsRunValue {
-        inner: crate::RuntimeValue::with_guard(JsValue::Object(obj), guard),
-    }))
+    TsRunValueResult::ok(TsRunValue::from_runtime_value(crate::RuntimeValue::with_guard(JsValue::Object(obj), guard)))
 }
 
 /// Create an empty array.
@@ -825,9 +863,7 @@ pub extern "C" fn tsrun_array_new(ctx: *mut TsRunContext) -> TsRunValueResult {
 
     let guard = ctx.interp.heap.create_guard();
     let arr = ctx.interp.create_array_from(&guard, vec![]);
-    TsRunValueResult::ok(Box::new(TsRunValue {
-        inner: crate::RuntimeValue::with_guard(JsValue::Object(arr), guard),
-    }))
+    TsRunValueResult::ok(TsRunValue::from_runtime_value(crate::RuntimeValue::with_guard(JsValue::Object(arr), guard)))
 }
 
 // ============================================================================
@@ -854,12 +890,12 @@ pub extern "C" fn tsrun_call(
     };
 
     let func_val = match unsafe { func.as_ref() } {
-        Some(v) => v.value().clone(),
+        Some(v) => ctx.view(v),
         None => return TsRunValueResult::err(ctx, "NULL function".to_string()),
     };
 
     let this_val = unsafe { this_arg.as_ref() }
-        .map(|v| v.value().clone())
+        .map(|v| ctx.view(v))
         .unwrap_or(JsValue::Undefined);
 
     // Convert args array
@@ -869,7 +905,7 @@ pub extern "C" fn tsrun_call(
         (0..argc)
             .filter_map(|i| unsafe {
                 let arg_ptr = *args.add(i);
-                arg_ptr.as_ref().map(|v| v.value().clone())
+                arg_ptr.as_ref().map(|v| ctx.view(v))
             })
             .collect()
     };
@@ -905,6 +941,9 @@ pub extern "C" fn tsrun_call_method(
         Some(v) => v,
         None => return TsRunValueResult::err(ctx, "NULL object".to_string()),
     };
+    if !ctx.owns(obj_val) {
+        return TsRunValueResult::err(ctx, "Value belongs to another context".to_string());
+    }
 
     let method_str = match unsafe { c_str_to_str(method) } {
         Some(s) => s,
@@ -938,7 +977,7 @@ pub extern "C" fn tsrun_call_method(
         (0..argc)
             .filter_map(|i| unsafe {
                 let arg_ptr = *args.add(i);
-                arg_ptr.as_ref().map(|v| v.value().clone())
+                arg_ptr.as_ref().map(|v| ctx.view(v))
             })
             .collect()
     };
@@ -1014,6 +1053,9 @@ pub extern "C" fn tsrun_set_global(
         Some(v) => v,
         None => return TsRunResult::err(ctx, "NULL value".to_string()),
     };
+    if !ctx.owns(val_ref) {
+        return TsRunResult::err(ctx, "Value belongs to another context".to_string());
+    }
 
     let prop_key = PropertyKey::String(JsString::from(name_str));
     ctx.interp
